@@ -69,7 +69,20 @@ def _mk_cp(rs, dt, order=None, degenerate=None, min_size=1):
          "mixed": rs.standard_normal(R)}[wk]
     if w is not None:
         w = w.astype(dt)
-    deg = degenerate if degenerate is not None else gen.choice(rs, ["none", "none", "zerocol", "zeromean", "zeroweight"])
+    deg = degenerate if degenerate is not None else gen.choice(rs, ["none", "none", "zerocol", "zeromean", "zeroweight", "tinycol"])
+    if deg == "tinycol":
+        # a column whose norm is far below machine epsilon but not zero; the scale sits in the weight, so the component is
+        # as large as the others: normalisation must treat it like any other column (only an exactly zero column is special)
+        tiny = 1e-19 if np.dtype(dt) == np.float64 else 1e-9
+        k, r = int(rs.randint(order)), int(rs.randint(R))
+        factors[k][:, r] = (factors[k][:, r] * tiny).astype(dt)
+        if w is None:
+            w = np.ones(R, dtype=dt)
+            wk = "ones"
+        w = w.copy()
+        w[r] = np.asarray(w[r] / tiny, dtype=dt)
+        if not np.any(factors[k][:, r]):
+            deg = "zerocol"
     if deg == "zerocol":
         factors[int(rs.randint(order))][:, int(rs.randint(R))] = 0
     elif deg == "zeromean":
@@ -114,7 +127,7 @@ def run_case(case, ctx):
         desc.update(dtype=dt, wrapper=wrapper, method=method)
         before, _, _ = ref.cp_dense(w, factors)
         scale = _cp_scale(w, factors)
-        cls = desc["degenerate"] if desc["degenerate"] in ("zerocol",) else "any"
+        cls = desc["degenerate"] if desc["degenerate"] in ("zerocol", "tinycol") else "any"
         obj = cpm.CPTensor((w, [f.copy() for f in factors])) if wrapper else (w, [f.copy() for f in factors])
         if method:
             obj.normalize()
@@ -141,10 +154,20 @@ def run_case(case, ctx):
         kind = gen.choice(rs, ["gauss", "int", "scaled"])
         core = gen.arr(rs, rk, dt, kind)
         factors = [gen.arr(rs, [s, r], dt, kind) for s, r in zip(shp, rk)]
-        deg = gen.choice(rs, ["none", "none", "zerocol"])
+        deg = gen.choice(rs, ["none", "none", "zerocol", "tinycol"])
         if deg == "zerocol":
             k = int(rs.randint(order))
             factors[k][:, int(rs.randint(rk[k]))] = 0
+        elif deg == "tinycol":
+            tiny = 1e-19 if np.dtype(dt) == np.float64 else 1e-9
+            k = int(rs.randint(order))
+            r = int(rs.randint(rk[k]))
+            factors[k][:, r] = (factors[k][:, r] * tiny).astype(dt)
+            idx = [slice(None)] * order
+            idx[k] = r
+            core[tuple(idx)] = (core[tuple(idx)] / tiny).astype(dt)
+            if not np.any(factors[k][:, r]):
+                deg = "zerocol"
         wrapper = bool(rs.rand() < 0.5)
         method = wrapper and bool(rs.rand() < 0.5)
         desc = {"shape": shp, "rank": rk, "degenerate": deg, "dtype": dt, "wrapper": wrapper, "method": method}
